@@ -151,6 +151,10 @@ class Ctx:
             "engine_versions": self.engines,
             "known_findings_reestablished": sorted(self.known_hits),
             "explanation": explanation,
+            "slowest_obligations": [
+                {"name": o["name"], "secs": o["secs"], "verdict": o["verdict"]}
+                for o in sorted(self.obs, key=lambda o: -o["secs"])[:8]
+            ],
         }
         cov.update(self.extra)
         ev = {
